@@ -33,7 +33,7 @@ def wf_jobs(prop, tier, rules=None, cell=(2024, 2), lift=True, timeout=None, ext
     for key, ob in sorted(b["obligations"].items()):
         per_rule.setdefault(ob["rule"], []).append(key)
     keep = set()
-    cap = PER_RULE_QUICK.get(prop, 4) if tier == "quick" else 10 ** 6
+    cap = PER_RULE_QUICK.get(prop, 4) if tier == "quick" else 12      # thorough: up to 12 ranked tuples per rule (all tuples: several hours)
     for r, keys in per_rule.items():
         if r == "ruleTimeDuration" and tier == "quick":
             keys = [k for k in keys if "POD" not in k][:2] or keys[:2]     # exact end-date contract: C08
@@ -77,7 +77,7 @@ def wf_jobs(prop, tier, rules=None, cell=(2024, 2), lift=True, timeout=None, ext
         variants = [(spec, "")]
         if name in TS_RULES and prop in ("C01", "C02"):
             # rules that read the reference time: more year-month cells (after a leap day, year end)
-            variants = [(dict(spec, _cell=c), "/ts%d-%02d" % c) for c in ([(2024, 2), (2024, 3)] if tier == "quick" else [(2024, 2), (2024, 3), (2023, 12), (2023, 2)])]
+            variants = [(dict(spec, _cell=c), "/ts%d-%02d" % c) for c in ([(2024, 2), (2024, 3)] if tier == "quick" else [(2024, 2), (2024, 3), (2023, 12)])]
             if name == "ruleLatentDOY" and tier == "quick":
                 variants = [(dict(v, ts_days="first"), sfx) for v, sfx in variants]   # exact contract over whole months: C04
         if name == "ruleTimeDuration" and prop in ("C15", "C12"):
